@@ -145,6 +145,132 @@ impl Space for Large {
     }
 }
 
+/// Tables of several 4 KiB blocks: a single NUL at positions around every block boundary (and at
+/// in-block positions below / at / above the offset's own in-block position), offsets at the same
+/// in-block positions of every block. `all` = the NUL at every position of blocks 1..3.
+struct Blocks {
+    all: bool,
+}
+const BLK: usize = 4096;
+const BLK_LEN: usize = 3 * BLK + 7;
+const BLK_R: [usize; 7] = [0, 1, 5, 100, 2048, 4086, 4095];
+impl Blocks {
+    fn positions(&self) -> Vec<usize> {
+        if self.all {
+            return (BLK - 2..BLK_LEN).collect();
+        }
+        let mut v = Vec::new();
+        for b in 1..=3usize {
+            for d in [-2i64, -1, 0, 1, 2, 4, 5, 6, 99, 100, 101, 2047, 2048, 2049, 4085, 4086, 4087] {
+                let p = (b * BLK) as i64 + d;
+                if p >= 0 && (p as usize) < BLK_LEN {
+                    v.push(p as usize);
+                }
+            }
+        }
+        v
+    }
+}
+impl Space for Blocks {
+    fn name(&self) -> String {
+        format!("tables of 3 x 4096 + 7 non-NUL bytes with a single NUL at position p ({}) x offsets b*4096 + r for b in 0..=2, r in {{0,1,5,100,2048,4086,4095}}, and p-1, p, p+1", if self.all { "every p from 4094 to the end" } else { "p within a few bytes of each 4096 multiple and of each multiple + r" })
+    }
+    fn size(&self) -> u64 {
+        self.positions().len() as u64
+    }
+    fn describe(&self, idx: u64) -> Value {
+        json!({"table_len": BLK_LEN, "nul_position": self.positions()[idx as usize]})
+    }
+    fn run(&self, idx: u64, out: &mut Outcome) {
+        let p = self.positions()[idx as usize];
+        let mut t: Vec<u8> = (0..BLK_LEN).map(|i| b'a' + (i % 25) as u8).collect();
+        t[p] = 0;
+        let mut dig = Fnv::new();
+        let mut offs: Vec<usize> = Vec::new();
+        for b in 0..=2usize {
+            for r in BLK_R {
+                offs.push(b * BLK + r);
+            }
+        }
+        offs.extend([p.wrapping_sub(1), p, p + 1, BLK_LEN - 1, BLK_LEN]);
+        for off in offs {
+            check_one(&t, off, out, &mut dig);
+        }
+        out.nontrivial(dig.get() ^ idx);
+    }
+}
+
+/// Long strings: one string of length L from offset 0 (and its suffixes) for L around 2^13 .. 2^17,
+/// 2^24; with `huge` also 2^32.
+struct LongStrings {
+    huge: bool,
+}
+const LONG_L: [usize; 18] = [8191, 8192, 8193, 12288, 16383, 16384, 16385, 32767, 32768, 65534, 65535, 65536, 65537, 131071, 131072, 199_999, (1 << 24) - 1, (1 << 24) + 1];
+impl Space for LongStrings {
+    fn name(&self) -> String {
+        format!("one NUL-free run of length L followed by NUL and 9 more bytes, L in {:?}{}; offsets {{0, 1, 4095, 4096, L-1, L, L+1, L+9}}", LONG_L, if self.huge { " and 2^32 - 1, 2^32 + 1" } else { "" })
+    }
+    fn size(&self) -> u64 {
+        LONG_L.len() as u64 + if self.huge { 2 } else { 0 }
+    }
+    fn describe(&self, idx: u64) -> Value {
+        json!({"run_length": self.len_of(idx)})
+    }
+    fn hang_secs(&self) -> u64 {
+        600
+    }
+    fn chunk_hint(&self) -> u64 {
+        1
+    }
+    fn run(&self, idx: u64, out: &mut Outcome) {
+        let l = self.len_of(idx);
+        let mut t: Vec<u8> = vec![b'x'; l + 10];
+        t[l] = 0;
+        for (k, b) in t[l + 1..].iter_mut().enumerate() {
+            *b = b'0' + k as u8;
+        }
+        let mut dig = Fnv::new();
+        for off in [0usize, 1, 4095, 4096, l - 1, l, l + 1, l + 9] {
+            // the last 9 bytes have no terminator: missing-NUL error expected there
+            check_one_quiet(&t, off, out, &mut dig);
+        }
+        out.nontrivial(dig.get() ^ idx);
+    }
+}
+impl LongStrings {
+    fn len_of(&self, idx: u64) -> usize {
+        if (idx as usize) < LONG_L.len() {
+            LONG_L[idx as usize]
+        } else if idx as usize == LONG_L.len() {
+            (1usize << 32) - 1
+        } else {
+            (1usize << 32) + 1
+        }
+    }
+}
+
+/// like check_one, but the failure text does not hex-dump a table of megabytes
+fn check_one_quiet(tab: &[u8], off: usize, out: &mut Outcome, dig: &mut Fnv) {
+    let st = StringTable::new(tab);
+    out.transitions += 2;
+    let want = ref_get_raw(tab, off);
+    match subject(|| (st.get_raw(off).ok(), st.get(off).ok())) {
+        Err(m) => out.violate(format!("panic:StringTable::get in {}", panic_site(&m)), format!("table of {} bytes, off {}: {}", tab.len(), off, m)),
+        Ok((raw, s)) => {
+            if raw != want {
+                out.violate("get_raw:wrong result", format!("table of {} bytes with its first NUL at {}: get_raw({}) = {:?}, reference = {:?}", tab.len(), tab.len() - 10, off, raw.map(|r| r.len()), want.map(|w| w.len())));
+            }
+            let ws = want.and_then(|w| std::str::from_utf8(w).ok());
+            if s != ws {
+                out.violate("get:wrong result", format!("table of {} bytes: get({}) = {:?} bytes, reference = {:?} bytes", tab.len(), off, s.map(|r| r.len()), ws.map(|w| w.len())));
+            }
+            if let Some(w) = want {
+                dig.u64(w.len() as u64);
+            }
+        }
+    }
+}
+
 /// Byte walks around the terminator: table lengths around word boundaries, the NUL at every
 /// position, the byte before it taking all 256 values, four fill patterns.
 struct ByteWalk;
@@ -197,10 +323,10 @@ pub fn build(tier: Tier) -> CheckDef {
         level: "model_checking",
         rule: "exhaustive small-scope enumeration: every (table, offset) pair of the stated finite space is executed on the real StringTable and compared with the reference definition (longest NUL-free run iff offset inside and a NUL follows; get = the same bytes iff valid UTF-8). non-trivial = table with at least one valid string; distinct = distinct set of returned strings".into(),
         assumptions: vec!["alphabet {NUL, ASCII, UTF-8 lead byte C3, continuation byte A9}".into()],
-        spaces: vec![Box::new(Small { maxlen: tier.pick(8, 10) }), Box::new(Large { step: tier.pick(16, 1) }), Box::new(ByteWalk)],
+        spaces: vec![Box::new(Small { maxlen: tier.pick(8, 10) }), Box::new(Large { step: tier.pick(16, 1) }), Box::new(ByteWalk), Box::new(Blocks { all: tier == Tier::Thorough }), Box::new(LongStrings { huge: tier == Tier::Thorough })],
         abort_is_violation: false,
         hang_is_violation: false,
         exhaustive: true,
-        bounds: json!({"small_tables_max_len": tier.pick(8, 10), "large_table_nul_positions": tier.pick("every 16th", "all 4096")}),
+        bounds: json!({"small_tables_max_len": tier.pick(8, 10), "large_table_nul_positions": tier.pick("every 16th", "all 4096"), "multi_block_nul_positions": tier.pick("around block boundaries", "every position"), "longest_string": tier.pick("2^24+1", "2^32+1")}),
     }
 }
